@@ -82,4 +82,27 @@ def patch (d : List FieldDesc) (dst src : Val) : Val :=
   | .msg dfs, .msg sfs => .msg (patchFields d dfs sfs)
   | _, _ => dst
 
+/-! ### `load.Load` with patch files (`load/load.go: loadWithPatch`) -/
+
+inductive PatchType where | none | replace | merge
+deriving DecidableEq, Repr
+
+inductive LoadMode where | all | onlyMain | onlyPatch
+deriving DecidableEq, Repr
+
+/-- `loadWithPatch`: `main` = the message of the main file, `patches` = the messages of the patch files in the
+given order (`none` = the file does not exist). `f` = the patcher (the model's `patch d`, or the specification's). -/
+def loadWith (f : Val → Val → Val) (pt : PatchType) (mode : LoadMode) (main : Val) (patches : List (Option Val)) : Val :=
+  if pt == .none || mode == .onlyMain then main
+  else
+    let existing := patches.filterMap id
+    match existing.getLast? with
+    | Option.none => if mode == .onlyPatch then .msg [] else main
+    | some last =>
+      match pt with
+      | .replace => last
+      | _ => existing.foldl f (if mode == .onlyPatch then .msg [] else main)
+
+def load (d : List FieldDesc) := loadWith (patch d)
+
 end TableauVerif.Model.Patch
